@@ -683,4 +683,266 @@ Proof.
   unfold translate. cbn zeta. rewrite Hd. destruct S2 as (F2 & _ & B2). split; [exact F2|exact B2].
 Qed.
 
+(* ================================================================== 3D *)
+Section ThreeD.
+Variables (g : wgrid) (e : V) (kx ky kz : Z).
+Hypothesis Hv : valid g.
+Hypothesis Hd : g_dim3 g = true.
+Hypothesis Hf : fits g.
+Hypothesis Hk : - two31 <= kx < two31 /\ - two31 <= ky < two31 /\ - two31 <= kz < two31.
+
+Definition W3 : stmt := SBufSet (ECall src_linear_index_3d [EVar (VIdx 0); EVar (VIdx 1); EVar (VIdx 2)]).
+
+Lemma frame3_of s : frame g s -> frame3 g s. Proof. unfold frame. rewrite Hd. tauto. Qed.
+
+Lemma HW3 : forall cells s x y z, St g e kx ky kz cells s -> get s (VIdx 0) = Z.of_nat x -> yz_at g s y z ->
+  (x < g_nx g)%nat -> (y < g_ny g)%nat -> (z < g_nz g)%nat ->
+  exists s', exec e W3 s = Some s' /\ St g e kx ky kz (cells ++ [(x, y, z)]) s' /\ (forall v, get s' v = get s v).
+Proof.
+  intros cells s x y z (F & P & Bf) Hx (Hy & Hz) Lx Ly Lz. unfold yz_at in *. rewrite Hd in Hz.
+  pose proof (frame3_of _ F) as Fr.
+  assert (E : eval (ECall src_linear_index_3d [EVar (VIdx 0); EVar (VIdx 1); EVar (VIdx 2)]) s = Some (Z.of_nat (lin g (x, y, z)))).
+  { change (eval (ECall src_linear_index_3d [EVar (VIdx 0); EVar (VIdx 1); EVar (VIdx 2)]) s)
+      with (eval src_linear_index_3d (set (set (set s (VArg 0) (get s (VIdx 0))) (VArg 1) (get s (VIdx 1))) (VArg 2) (get s (VIdx 2)))).
+    apply linear_index_3d; try assumption. }
+  assert (Hlen : (lin g (x, y, z) < length (s_buf s))%nat) by (rewrite Bf, blank_length; apply lin_lt, Hv).
+  unfold W3. rewrite (exec_bufset e _ s _ E Hlen). eexists; split; [reflexivity|]. split; [|reflexivity].
+  split; [apply frame_set_buf, F|]. split; [exact P|]. rewrite buf_set_buf, Bf, blank_app. reflexivity.
+Qed.
+
+Lemma nb3 : (0 < g_nx g)%nat /\ (0 < g_ny g)%nat /\ (0 < g_nz g)%nat /\
+  Z.of_nat (g_nx g) < 2 ^ 31 /\ Z.of_nat (g_ny g) < 2 ^ 31 /\ Z.of_nat (g_nz g) < 2 ^ 31.
+Proof. destruct Hv as (A & B & C & _ & _ & _ & _ & _ & D). tauto. Qed.
+
+Lemma H3N0 s : frame g s -> get s (VN 0) = Z.of_nat (g_nx g) /\ get s (VNm1 0) = Z.of_nat (g_nx g) - 1.
+Proof. intros F. apply frame3_of in F. unfold frame3, frame2 in F. tauto. Qed.
+Lemma H3N1 s : frame g s -> get s (VN 1) = Z.of_nat (g_ny g) /\ get s (VNm1 1) = Z.of_nat (g_ny g) - 1.
+Proof. intros F. apply frame3_of in F. unfold frame3, frame2 in F. tauto. Qed.
+Lemma H3N2 s : frame g s -> get s (VN 2) = Z.of_nat (g_nz g) /\ get s (VNm1 2) = Z.of_nat (g_nz g) - 1.
+Proof. intros F. apply frame3_of in F. unfold frame3, frame2 in F. tauto. Qed.
+Lemma Hkz s : pars g kx ky kz s -> get s (VPar 2) = kz. Proof. intros (_ & _ & H). exact (H Hd). Qed.
+
+Lemma mod_xy_keep v : mod_xy v = false -> mod_x v = false /\ var_eqb v (VIdx 1) = false.
+Proof. destruct v as [[|[|?]]|?|?|?|?|?|?|[|?]|?]; cbn; intros H; try discriminate H; split; reflexivity. Qed.
+Lemma mod_xy0_keep v : mod_xy0 v = false -> mod_x0 v = false /\ var_eqb v (VIdx 1) = false.
+Proof. destruct v as [[|[|?]]|?|?|?|?|?|?|?|?]; cbn; intros H; try discriminate H; split; reflexivity. Qed.
+Lemma mod_xy_keep' v : mod_xy v = false -> mod_x0 v = false /\ var_eqb v (VIdx 1) = false /\ var_eqb v (VCnt 0) = false.
+Proof. destruct v as [[|[|?]]|?|?|?|?|?|?|[|?]|?]; cbn; intros H; try discriminate H; repeat split; reflexivity. Qed.
+Lemma outer_b1 : forall b, (1 < b)%nat -> mod_x (VIdx b) = false.
+Proof. intros [|[|b]] Hb; [lia|lia|reflexivity]. Qed.
+
+(* row loop at (y, z) *)
+Lemma row_3d_ok init cond step count cells s y z :
+  (forall s : state, exec e init s = Some (set s (VIdx 0) 0)) ->
+  (forall s : state, eval cond s = Some (b2z (get s (VIdx 0) <? get s (VN 0)))) ->
+  (forall s : state, exec e step s = Some (set s (VIdx 0) ((get s (VIdx 0) + 1) mod two64))) ->
+  (forall s : state, eval count s = Some (get s (VN 0) - get s (VIdx 0))) ->
+  St g e kx ky kz cells s -> get s (VIdx 1) = Z.of_nat y -> get s (VIdx 2) = Z.of_nat z -> (y < g_ny g)%nat -> (z < g_nz g)%nat ->
+  exists s', exec e (SFor init cond step W3 count) s = Some s' /\ St g e kx ky kz (cells ++ row y z (all (g_nx g))) s' /\
+             (forall v, mod_x0 v = false -> get s' v = get s v).
+Proof.
+  intros H1 H2 H3 H4 HSt Hy Hz Ly Lz. pose proof nb3 as (Px & Py & Pz & Bx & By & Bz).
+  destruct (axis_full g e kx ky kz Hk 0%nat (g_nx g) 0 W3 (fun x => [(x, y, z)]) mod_none y z) with
+    (init := init) (cond := cond) (step := step) (count := count) (cells := cells) (s := s) as (s' & E & S' & K); try assumption.
+  - split; assumption.
+  - exact H3N0.
+  - unfold two31; lia.
+  - reflexivity.
+  - reflexivity.
+  - intros cells0 s0 x S0 X0 O0 L0.
+    destruct (HW3 cells0 s0 x y z S0 X0 O0 L0 Ly Lz) as (s1 & E' & S1 & G').
+    exists s1. split; [exact E'|]. split; [exact S1|]. intros v _. apply G'.
+  - split; [exact Hy|]. rewrite Hd. exact Hz.
+  - exists s'. split; [exact E|]. rewrite flat_map_single in S'. split; [exact S'|].
+    intros v Hm. apply K; [reflexivity|apply mod_x0_keep, Hm].
+Qed.
+
+(* slab loop at z:  for (y ..) for (x ..) W *)
+Lemma slab_3d_ok i1 c1 s1 n1 i2 c2 s2 n2 cells s z :
+  (forall s : state, exec e i1 s = Some (set s (VIdx 1) 0)) ->
+  (forall s : state, eval c1 s = Some (b2z (get s (VIdx 1) <? get s (VN 1)))) ->
+  (forall s : state, exec e s1 s = Some (set s (VIdx 1) ((get s (VIdx 1) + 1) mod two64))) ->
+  (forall s : state, eval n1 s = Some (get s (VN 1) - get s (VIdx 1))) ->
+  (forall s : state, exec e i2 s = Some (set s (VIdx 0) 0)) ->
+  (forall s : state, eval c2 s = Some (b2z (get s (VIdx 0) <? get s (VN 0)))) ->
+  (forall s : state, exec e s2 s = Some (set s (VIdx 0) ((get s (VIdx 0) + 1) mod two64))) ->
+  (forall s : state, eval n2 s = Some (get s (VN 0) - get s (VIdx 0))) ->
+  St g e kx ky kz cells s -> get s (VIdx 2) = Z.of_nat z -> (z < g_nz g)%nat ->
+  exists s', exec e (SFor i1 c1 s1 (SFor i2 c2 s2 W3 n2) n1) s = Some s' /\
+             St g e kx ky kz (cells ++ flat_map (fun y => row y z (all (g_nx g))) (all (g_ny g))) s' /\
+             (forall v, mod_xy0 v = false -> get s' v = get s v).
+Proof.
+  intros A1 A2 A3 A4 B1 B2 B3 B4 HSt Hz Lz. pose proof nb3 as (Px & Py & Pz & Bx & By & Bz).
+  destruct (axis_full g e kx ky kz Hk 1%nat (g_ny g) 0 (SFor i2 c2 s2 W3 n2) (fun y => row y z (all (g_nx g))) mod_x0 0%nat z) with
+    (init := i1) (cond := c1) (step := s1) (count := n1) (cells := cells) (s := s) as (s' & E & S' & K); try assumption.
+  - split; assumption.
+  - exact H3N1.
+  - unfold two31; lia.
+  - intros [|[|b]] Hb; [lia|lia|reflexivity].
+  - reflexivity.
+  - intros cells0 s0 y S0 Y0 O0 L0. cbn in O0. unfold z_at in O0. rewrite Hd in O0.
+    apply row_3d_ok; assumption.
+  - cbn. unfold z_at. rewrite Hd. exact Hz.
+  - exists s'. split; [exact E|]. split; [exact S'|].
+    intros v Hm. destruct (mod_xy0_keep v Hm). apply K; assumption.
+Qed.
+
+Definition x_if_3d : stmt := seq1 src_translate_3d.
+Definition y_if_3d : stmt := seq1 (seq2 src_translate_3d).
+Definition z_if_3d : stmt := seq2 (seq2 src_translate_3d).
+Lemma split_3d : src_translate_3d = SSeq x_if_3d (SSeq y_if_3d z_if_3d). Proof. reflexivity. Qed.
+
+Definition x_body_3d : stmt := for_body (for_body (seq1 (if_then x_if_3d))).
+Definition x_ybody_3d : stmt := for_body (seq1 (if_then x_if_3d)).
+
+Lemma x_body_3d_ok cells s y z : St g e kx ky kz cells s -> get s (VIdx 1) = Z.of_nat y -> get s (VIdx 2) = Z.of_nat z ->
+  (y < g_ny g)%nat -> (z < g_nz g)%nat ->
+  exists s', exec e x_body_3d s = Some s' /\ St g e kx ky kz (cells ++ row y z (axis_run (g_nx g) kx)) s' /\
+             (forall v, mod_x v = false -> get s' v = get s v).
+Proof.
+  intros HSt Hy Hz Ly Lz. pose proof nb3 as (Px & Py & Pz & Bx & By & Bz).
+  unfold x_body_3d, x_if_3d, src_translate_3d. cbn [for_body seq1 if_then].
+  match goal with |- exists s', exec e (SSeq ?r (SSeq ?u ?d)) ?s = _ /\ _ =>
+    change (exec e (SSeq r (SSeq u d)) s) with (exec e (SSeq r (SSeq u (SSeq SSkip d))) s) end.
+  edestruct (axis_runs g e kx ky kz Hk 0%nat (g_nx g) kx W3 (fun x => [(x, y, z)]) mod_none y z)
+    with (cells := cells) (s := s) as (s' & E & S' & K); revgoals.
+  1: { exists s'. split; [exact E|]. rewrite flat_map_single in S'. split; [exact S'|].
+       intros v Hm. destruct (mod_x_keep v Hm). apply K; [reflexivity|assumption|assumption]. }
+  all: try sem. all: try exact HSt. all: try exact H3N0. all: try (apply Hk). all: try (intros s0 P0; apply P0).
+  all: try (split; assumption).
+  - split; [exact Hy|]. rewrite Hd. exact Hz.
+  - intros cells0 s0 x S0 X0 O0 L0.
+    destruct (HW3 cells0 s0 x y z S0 X0 O0 L0 Ly Lz) as (s1 & E' & S1 & G').
+    exists s1. split; [exact E'|]. split; [exact S1|]. intros v _. apply G'.
+Qed.
+
+Lemma x_ybody_3d_ok cells s z : St g e kx ky kz cells s -> get s (VIdx 2) = Z.of_nat z -> (z < g_nz g)%nat ->
+  exists s', exec e x_ybody_3d s = Some s' /\
+             St g e kx ky kz (cells ++ flat_map (fun y => row y z (axis_run (g_nx g) kx)) (all (g_ny g))) s' /\
+             (forall v, mod_xy v = false -> get s' v = get s v).
+Proof.
+  intros HSt Hz Lz. pose proof nb3 as (Px & Py & Pz & Bx & By & Bz).
+  unfold x_ybody_3d, x_if_3d, src_translate_3d. cbn [for_body seq1 if_then].
+  edestruct (axis_full g e kx ky kz Hk 1%nat (g_ny g) 0 x_body_3d (fun y => row y z (axis_run (g_nx g) kx)) mod_x 0%nat z)
+    with (cells := cells) (s := s) as (s' & E & S' & K); revgoals.
+  1: { unfold x_body_3d, x_if_3d, src_translate_3d in E. cbn [for_body seq1 if_then] in E.
+       exists s'. split; [exact E|]. split; [exact S'|]. intros v Hm. destruct (mod_xy_keep v Hm). apply K; assumption. }
+  all: try sem. all: try exact HSt. all: try exact H3N1. all: try (split; assumption). all: try exact outer_b1.
+  - cbn. unfold z_at. rewrite Hd. exact Hz.
+  - intros cells0 s0 y S0 Y0 O0 L0. cbn in O0. unfold z_at in O0. rewrite Hd in O0. apply x_body_3d_ok; assumption.
+Qed.
+
+Lemma X3 s : St g e kx ky kz [] s -> exists s', exec e x_if_3d s = Some s' /\ St (translate_x g kx e) e kx ky kz [] s'.
+Proof.
+  intros HSt. pose proof nb3 as (Px & Py & Pz & Bx & By & Bz).
+  assert (HP : get s (VPar 0) = kx) by apply HSt.
+  unfold x_if_3d, src_translate_3d. cbn [seq1].
+  destruct (Z.eq_dec kx 0) as [Z0|NZ].
+  - rewrite exec_if_false by (cbn [eval]; rewrite HP, Z0; reflexivity). cbn [exec].
+    exists s. split; [reflexivity|]. replace (translate_x g kx e) with g by (unfold translate_x; rewrite Z0; reflexivity). exact HSt.
+  - rewrite (exec_if_true e _ _ _ s kx) by first [exact NZ | (cbn [eval]; rewrite HP; reflexivity)]. rewrite exec_seq.
+    edestruct (axis_full g e kx ky kz Hk 2%nat (g_nz g) 0 x_ybody_3d
+                 (fun z => flat_map (fun y => row y z (axis_run (g_nx g) kx)) (all (g_ny g))) mod_xy 0%nat 0%nat)
+      with (cells := @nil idx) (s := s) as (s1 & E1 & S1 & K1); revgoals.
+    1: { unfold x_ybody_3d, x_if_3d, src_translate_3d in E1. cbn [for_body seq1 if_then] in E1. rewrite E1. cbn [bind].
+      destruct S1 as (F1 & P1 & B1). pose proof (frame3_of _ F1) as ((N0 & N1 & M0 & M1 & C0 & C1 & O0 & O1) & _).
+      erewrite exec_set; [| apply (offset_update s1 0 (g_ox g) (g_nx g) kx); try assumption; [apply P1|apply Hk]].
+      eexists; split; [reflexivity|]. apply St_after_x; [exact Hv|exact NZ|]. split; [exact F1|]. split; [exact P1|exact B1]. }
+    all: try sem. all: try exact HSt. all: try exact H3N2. all: try (split; assumption).
+    + intros cells0 s0 z S0 Z0 _ L0. apply x_ybody_3d_ok; assumption.
+    + intros b Hb. destruct b as [|[|[|b]]]; try lia; reflexivity.
+Qed.
+
+Definition y_zbody_3d : stmt := for_body (seq1 (if_then y_if_3d)).
+
+Lemma y_zbody_3d_ok cells s z : St g e kx ky kz cells s -> get s (VIdx 2) = Z.of_nat z -> (z < g_nz g)%nat ->
+  exists s', exec e y_zbody_3d s = Some s' /\
+             St g e kx ky kz (cells ++ flat_map (fun y => row y z (all (g_nx g))) (axis_run (g_ny g) ky)) s' /\
+             (forall v, mod_xy v = false -> get s' v = get s v).
+Proof.
+  intros HSt Hz Lz. pose proof nb3 as (Px & Py & Pz & Bx & By & Bz).
+  unfold y_zbody_3d, y_if_3d, src_translate_3d. cbn [for_body seq1 seq2 if_then].
+  match goal with |- exists s', exec e (SSeq ?r (SSeq ?u ?d)) ?s = _ /\ _ =>
+    change (exec e (SSeq r (SSeq u d)) s) with (exec e (SSeq r (SSeq u (SSeq SSkip d))) s) end.
+  match goal with |- context [SSeq (SFor ?i ?c ?st ?b ?n) (SSet (VIdx 1) _)] =>
+    edestruct (axis_runs g e kx ky kz Hk 1%nat (g_ny g) ky (SFor i c st b n) (fun y => row y z (all (g_nx g))) mod_x0 0%nat z)
+      with (cells := cells) (s := s) as (s' & E & S' & K) end; revgoals.
+  1: { exists s'. split; [exact E|]. split; [exact S'|].
+       intros v Hm. destruct (mod_xy_keep' v Hm) as (? & ? & ?). apply K; assumption. }
+  all: try sem. all: try exact HSt. all: try exact H3N1. all: try (apply Hk). all: try (intros s0 P0; apply P0).
+  all: try (split; assumption).
+  - cbn. unfold z_at. rewrite Hd. exact Hz.
+  - intros cells0 s0 y S0 Y0 O0 L0. cbn in O0. unfold z_at in O0. rewrite Hd in O0. apply row_3d_ok; try assumption; sem.
+  - intros [|[|b]] Hb; [lia|lia|reflexivity].
+Qed.
+
+Lemma Y3 s : St g e kx ky kz [] s -> exists s', exec e y_if_3d s = Some s' /\ St (translate_y g ky e) e kx ky kz [] s'.
+Proof.
+  intros HSt. pose proof nb3 as (Px & Py & Pz & Bx & By & Bz).
+  assert (HP : get s (VPar 1) = ky) by apply HSt.
+  unfold y_if_3d, src_translate_3d. cbn [seq1 seq2].
+  destruct (Z.eq_dec ky 0) as [Z0|NZ].
+  - rewrite exec_if_false by (cbn [eval]; rewrite HP, Z0; reflexivity). cbn [exec].
+    exists s. split; [reflexivity|]. replace (translate_y g ky e) with g by (unfold translate_y; rewrite Z0; reflexivity). exact HSt.
+  - rewrite (exec_if_true e _ _ _ s ky) by first [exact NZ | (cbn [eval]; rewrite HP; reflexivity)]. rewrite exec_seq.
+    edestruct (axis_full g e kx ky kz Hk 2%nat (g_nz g) 0 y_zbody_3d
+                 (fun z => flat_map (fun y => row y z (all (g_nx g))) (axis_run (g_ny g) ky)) mod_xy 0%nat 0%nat)
+      with (cells := @nil idx) (s := s) as (s1 & E1 & S1 & K1); revgoals.
+    1: { unfold y_zbody_3d, y_if_3d, src_translate_3d in E1. cbn [for_body seq1 seq2 if_then] in E1. rewrite E1. cbn [bind].
+      destruct S1 as (F1 & P1 & B1). pose proof (frame3_of _ F1) as ((N0 & N1 & M0 & M1 & C0 & C1 & O0 & O1) & _).
+      erewrite exec_set; [| apply (offset_update s1 1 (g_oy g) (g_ny g) ky); try assumption; [apply P1|apply Hk]].
+      eexists; split; [reflexivity|]. apply St_after_y; [exact Hv|exact NZ|]. split; [exact F1|]. split; [exact P1|exact B1]. }
+    all: try sem. all: try exact HSt. all: try exact H3N2. all: try (split; assumption).
+    + intros cells0 s0 z S0 Z0 _ L0. apply y_zbody_3d_ok; assumption.
+    + intros b Hb. destruct b as [|[|[|b]]]; try lia; reflexivity.
+Qed.
+
+Lemma Z3 s : St g e kx ky kz [] s -> exists s', exec e z_if_3d s = Some s' /\ St (translate_z g kz e) e kx ky kz [] s'.
+Proof.
+  intros HSt. pose proof nb3 as (Px & Py & Pz & Bx & By & Bz).
+  assert (HP : get s (VPar 2) = kz) by (apply Hkz, HSt).
+  unfold z_if_3d, src_translate_3d. cbn [seq2].
+  destruct (Z.eq_dec kz 0) as [Z0|NZ].
+  - rewrite exec_if_false by (cbn [eval]; rewrite HP, Z0; reflexivity). cbn [exec].
+    exists s. split; [reflexivity|]. replace (translate_z g kz e) with g by (unfold translate_z; rewrite Z0; reflexivity). exact HSt.
+  - rewrite (exec_if_true e _ _ _ s kz) by first [exact NZ | (cbn [eval]; rewrite HP; reflexivity)]. rewrite reassoc_runs.
+    match goal with |- context [SSeq (SFor ?i ?c ?st ?b ?n) (SSet (VIdx 2) _)] =>
+      edestruct (axis_runs g e kx ky kz Hk 2%nat (g_nz g) kz (SFor i c st b n)
+                   (fun z => flat_map (fun y => row y z (all (g_nx g))) (all (g_ny g))) mod_xy0 0%nat 0%nat)
+        with (cells := @nil idx) (s := s) as (s1 & E1 & S1 & K1) end; revgoals.
+    1: { rewrite E1. cbn [bind].
+      destruct S1 as (F1 & P1 & B1). pose proof (frame3_of _ F1) as (_ & N2 & M2 & C2 & O2).
+      erewrite exec_set; [| apply (offset_update s1 2 (g_oz g) (g_nz g) kz); try assumption; [apply Hkz, P1|apply Hk]].
+      eexists; split; [reflexivity|]. apply St_after_z; [exact Hv|exact NZ|]. split; [exact F1|]. split; [exact P1|exact B1]. }
+    all: try sem. all: try exact HSt. all: try exact H3N2. all: try (apply Hk). all: try exact Hkz.
+    all: try (split; assumption).
+    + intros cells0 s0 z S0 Z0 _ L0. apply slab_3d_ok; try assumption; sem.
+    + intros b Hb. destruct b as [|[|[|b]]]; try lia; reflexivity.
+Qed.
+
+End ThreeD.
+
+Theorem translate_3d_tie (g : wgrid) (e : V) (kx ky kz : Z) (s : state) :
+  valid g -> g_dim3 g = true -> fits g ->
+  - two31 <= kx < two31 -> - two31 <= ky < two31 -> - two31 <= kz < two31 ->
+  represents s g -> get s (VPar 0) = kx -> get s (VPar 1) = ky -> get s (VPar 2) = kz ->
+  exists s', exec e src_translate_3d s = Some s' /\ represents s' (translate g kx ky kz e).
+Proof.
+  intros Hv Hd Hf Hkx Hky Hkz' (F & Bf) Px Py Pz.
+  assert (HSt : St g e kx ky kz [] s).
+  { split; [exact F|]. split; [|exact Bf]. split; [exact Px|]. split; [exact Py|]. intros _. exact Pz. }
+  pose proof (conj Hkx (conj Hky Hkz')) as Hk.
+  destruct (X3 g e kx ky kz Hv Hd Hf Hk s HSt) as (s1 & E1 & S1).
+  pose proof (translate_x_valid g kx e Hv) as Hv1. pose proof (translate_x_shape g kx e) as Sh1.
+  assert (Hd1 : g_dim3 (translate_x g kx e) = true) by (destruct Sh1 as (D & _); rewrite D; exact Hd).
+  set (g1 := translate_x g kx e) in *.
+  destruct (Y3 g1 e kx ky kz Hv1 Hd1 (fits_shape _ _ Sh1 Hf) Hk s1 S1) as (s2 & E2 & S2).
+  pose proof (translate_y_valid g1 ky e Hv1) as Hv2. pose proof (translate_y_shape g1 ky e) as Sh2.
+  assert (Hd2 : g_dim3 (translate_y g1 ky e) = true) by (destruct Sh2 as (D & _); rewrite D; exact Hd1).
+  set (g2 := translate_y g1 ky e) in *.
+  destruct (Z3 g2 e kx ky kz Hv2 Hd2 (fits_shape _ _ Sh2 (fits_shape _ _ Sh1 Hf)) Hk s2 S2) as (s3 & E3 & S3).
+  exists s3. rewrite split_3d, exec_seq, E1. cbn [bind]. rewrite exec_seq, E2. cbn [bind]. split; [exact E3|].
+  unfold translate. cbn zeta. rewrite Hd. destruct S3 as (F3 & _ & B3). split; [exact F3|exact B3].
+Qed.
+
 End Tie.
